@@ -296,7 +296,7 @@ func c06r3(c *core.Ctx) {
 	if pf != nil {
 		okc := false
 		core.Instrs(pf, func(i ssa.Instruction) {
-			if f := core.Callee(i); f != nil && f.Name() == "packetsWithSizeFromBytes" {
+			if f := core.Callee(i); f != nil && cn(f) == "packetsWithSizeFromBytes" {
 				if n, ok := core.ConstInt(core.Args(i)[0]); ok && n == v {
 					okc = true
 				}
